@@ -49,9 +49,13 @@ CLAIMS = {
  "C10": ("proof", "Theorems: the model's evalString equals the specification escaper; its output has no raw < >, every & starts an "
          "entity, quotes are kept, unescape and raw() give back the literal exactly. Tied by correspondence over an exhaustive "
          "alphabet sweep in six contexts.", "8.C10", "induction over the literal with one-byte lookahead + correspondence"),
- "C11": ("other", "One-line contracts per built-in in Spec/BuiltinSpec.v, extracted; receivers x argument tuples x boundary counts; "
-         "purity observed by the harness. " + PENDING, "8.C11",
-         "extracted Coq contracts as oracle + built-in model correspondence (theorems pending)"),
+ "C11": ("proof", "Theorem: for every function name, receiver and argument list the built-in model (mirror of evaluator/*_func.go) meets the "
+         "contract written from the property text (Spec/BuiltinSpec.v): the contract's value where it gives one, an error or 'no such "
+         "function' where it says error - 17 string, 9 array, 5 integer, 6 float, 2 boolean functions, all arities and kinds; plus contract "
+         "facts (slice is a contiguous segment for all bounds, reverse is an involution, append/prepend extend) and 'a built-in name wins over "
+         "a custom function'. The model is tied to the code by receivers x argument tuples x boundary counts; purity and UTF-8 validity of "
+         "every implementation result are observed by the run, not proved.", "8.C11",
+         "model-meets-contract theorem over all names/receivers/arguments + correspondence + extracted contract as oracle"),
  "C12": ("other", "goval/view specification in Coq, extracted; type-directed Go values built by reflection. " + PENDING, "8.C12",
          "extracted Coq specification as oracle + data-binding model correspondence (theorems pending)"),
  "C13": ("other", "Fault injection with the line known by construction; model lines = implementation lines. " + PENDING, "8.C13",
